@@ -18,16 +18,16 @@ ALL_INVS = ['Deterministic', 'Terminates', 'Typed', 'ConservationStep', 'Conserv
 ARG_MC = {
     'C01': dict(decls=[1, 2, 9], policy=['opts', 'clusters'], popts=['<<>>', '<<"PassDoubleDash">>'], handlers=['none'],
                 maxlen=(2, 3), thorough_decls=[1, 2, 8, 9, 6]),
-    'C03': dict(decls=[4, 5], policy=['opts', 'cmds', 'odd', 'unknown'], popts=PASS3, handlers=['none'], maxlen=(3, 4), thorough_decls=[4, 5, 3]),
+    'C03': dict(decls=[4, 5], policy=['opts', 'cmds', 'odd', 'unknown'], popts=PASS3, handlers=['none'], maxlen=(3, 4), thorough_decls=[4, 5]),
     'C04': dict(decls=[1, 3, 8], policy=['opts', 'cmds', 'odd', 'unknown', 'help', 'fmt'], popts=DEFAULTISH + ['<<"HelpFlag", "PrintErrors">>'],
-                handlers=['none', 'error'], maxlen=(2, 3), thorough_decls=[1, 3, 5, 7, 8, 9]),
-    'C06': dict(decls=[7], policy=['opts', 'cmds', 'clusters'], popts=['<<>>', '<<"PassDoubleDash">>'], handlers=['none'], maxlen=(3, 5), thorough_decls=[7, 3]),
+                handlers=['none', 'error'], maxlen=(2, 3), thorough_decls=[3, 5, 7, 9]),
+    'C06': dict(decls=[7], policy=['opts', 'cmds', 'clusters'], popts=['<<>>', '<<"PassDoubleDash">>'], handlers=['none'], maxlen=(3, 4), thorough_decls=[7, 3]),
     'C07': dict(decls=[2, 3, 10], policy=['opts', 'cmds', 'unknown', 'near'], popts=['<<>>', '<<"IgnoreUnknown">>'],
                 handlers=['none', 'identity', 'dropnext', 'dropall', 'inject', 'error'], maxlen=(2, 3), thorough_decls=[2, 3, 10]),
-    'C08': dict(decls=[13, 10], policy=['opts', 'cmds', 'odd'], popts=['<<>>', '<<"PassDoubleDash">>'], handlers=['none'], maxlen=(3, 4), thorough_decls=[3, 5, 10, 13]),
+    'C08': dict(decls=[13, 10], policy=['opts', 'cmds', 'odd'], popts=['<<>>', '<<"PassDoubleDash">>'], handlers=['none'], maxlen=(3, 4), thorough_decls=[5, 13]),
     'C09': dict(decls=[3, 5, 7], policy=['opts', 'cmds', 'unknown', 'help'], popts=['<<>>', '<<"HelpFlag">>', '<<"HelpFlag", "PrintErrors", "PassDoubleDash">>'],
-                handlers=['none'], maxlen=(3, 4), thorough_decls=[3, 5, 7, 10]),
-    'C10': dict(decls=[4, 5, 7], policy=['opts', 'cmds', 'odd'], popts=PASS3, handlers=['none'], maxlen=(3, 4), thorough_decls=[4, 5, 7]),
+                handlers=['none'], maxlen=(3, 4), thorough_decls=[5, 7]),
+    'C10': dict(decls=[4, 5, 7], policy=['opts', 'cmds', 'odd'], popts=PASS3, handlers=['none'], maxlen=(3, 4), thorough_decls=[4, 5]),
 }
 # a second exhaustive model for the properties that speak about the active chain: the judged parse is the SECOND ParseArgs of one
 # parser, after a first one that selected each command path of the three-level declaration D18
@@ -47,16 +47,21 @@ class ArgParseFamily:
     name = 'argparse'
 
     def mc(self, ctx, prop):
-        states, gen, scns, d, info = self.mc_one(ctx, ARG_MC[prop], 'mc')
+        thorough = ctx.tier == 'thorough'
+        states, gen, scns, d, info = self.mc_one(ctx, ARG_MC[prop], 'mc', thorough)
+        if thorough:
+            # the thorough tier explores the quick tier's bounds as well (other declarations, shorter vectors)
+            s2, g2, scns2, d2, info2 = self.mc_one(ctx, ARG_MC[prop], 'mcq', False)
+            states, gen, scns = states + s2, gen + g2, scns + scns2
+            info = dict(info, quick_bounds_model=info2)
         if prop in ARG_MC_REUSE:
-            s2, g2, scns2, d2, info2 = self.mc_one(ctx, ARG_MC_REUSE[prop], 'mcr')
+            s2, g2, scns2, d2, info2 = self.mc_one(ctx, ARG_MC_REUSE[prop], 'mcr', thorough)
             states, gen, scns = states + s2, gen + g2, scns + scns2
             info = dict(info, reused_parser_model=info2)
         return states, gen, scns, d, info
 
-    def mc_one(self, ctx, b, tag):
+    def mc_one(self, ctx, b, tag, thorough):
         """exhaustive run of MC_ArgParse with the given bounds; returns (states, transitions, scenario lines)"""
-        thorough = ctx.tier == 'thorough'
         d = ctx.specdir(tag)
         cat = os.path.join(ROOT, 'catalog', 'argparse.ndjson')
         ctx.vh('decls', '-trees', cat, '-decls', os.path.join(d, 'catalog_decls.ndjson'))
@@ -709,20 +714,27 @@ class CompletionFamily(SessionFamily):
 
     def mc(self, ctx, prop):
         th = ctx.tier == 'thorough'
-        d = ctx.specdir('mc')
         cat = os.path.join(ROOT, 'catalog', 'argparse.ndjson')
-        ctx.vh('decls', '-trees', cat, '-decls', os.path.join(d, 'catalog_decls.ndjson'))
-        decls = [14, 5, 3] if th else [14]
-        mw = 3 if th else 2
-        popts = ['<<>>', '<<"HelpFlag", "PassDoubleDash">>'] + (['<<"PassDoubleDash">>'] if th else [])
-        open(os.path.join(d, 'MCrun.tla'), 'w').write('---- MODULE MCrun ----\nEXTENDS MC_Completion\nc_POptSets == {%s}\n====\n' % ', '.join(popts))
-        cfg = ('SPECIFICATION Spec\nCONSTANTS\n  Defects = {}\n  DeclIds = {%s}\n  MaxWords = %d\n  POptSets <- c_POptSets\n  Emit = TRUE\n'
-               'INVARIANTS WalkAgreesWithParser OfferedIsAccepted Sorted EmitScn\nCHECK_DEADLOCK FALSE\n' % (', '.join(map(str, decls)), mw))
-        rc, out = ctx.tlc(d, 'MCrun', cfg, workers=NCPU, timeout=3000)
-        if not ctx.tlc_ok(out):
-            raise Infra('exhaustive completion model did not complete cleanly:\n' + ctx.tlc_error_summary(out))
-        states, gen = ctx.tlc_counts(out)
-        return states, gen, parse_scn(out), d, dict(module='MC_Completion', decls=decls, maxwords=mw, popts=len(popts))
+        # (declarations, words, parser-option sets): the thorough tier adds a third word on the smaller declarations
+        configs = [([14], 2, ['<<>>', '<<"HelpFlag", "PassDoubleDash">>'])]
+        if th:
+            configs = [([14], 2, ['<<>>', '<<"HelpFlag", "PassDoubleDash">>', '<<"PassDoubleDash">>']), ([5, 13], 3, ['<<>>', '<<"HelpFlag", "PassDoubleDash">>'])]
+        states = gen = 0
+        scns, infos, d = [], [], None
+        for k, (decls, mw, popts) in enumerate(configs):
+            d = ctx.specdir('mc%d' % k)
+            ctx.vh('decls', '-trees', cat, '-decls', os.path.join(d, 'catalog_decls.ndjson'))
+            open(os.path.join(d, 'MCrun.tla'), 'w').write('---- MODULE MCrun ----\nEXTENDS MC_Completion\nc_POptSets == {%s}\n====\n' % ', '.join(popts))
+            cfg = ('SPECIFICATION Spec\nCONSTANTS\n  Defects = {}\n  DeclIds = {%s}\n  MaxWords = %d\n  POptSets <- c_POptSets\n  Emit = TRUE\n'
+                   'INVARIANTS WalkAgreesWithParser OfferedIsAccepted Sorted EmitScn\nCHECK_DEADLOCK FALSE\n' % (', '.join(map(str, decls)), mw))
+            rc, out = ctx.tlc(d, 'MCrun', cfg, workers=NCPU, timeout=3000)
+            if not ctx.tlc_ok(out):
+                raise Infra('exhaustive completion model did not complete cleanly:\n' + ctx.tlc_error_summary(out))
+            s1, g1 = ctx.tlc_counts(out)
+            states, gen = states + s1, gen + g1
+            scns += parse_scn(out)
+            infos.append(dict(decls=decls, maxwords=mw, popts=len(popts), states=s1))
+        return states, gen, scns, d, dict(module='MC_Completion', configs=infos)
 
     def random_part(self, ctx, prop, kind, repeat=1):
         nt, per = (100, 100) if ctx.tier == 'quick' else (800, 150)
